@@ -32,6 +32,11 @@ const (
 	// https://regex101.com/r/XVN7Kw/1
 	RegexToReplaceWildcard string = "(/.*)?"
 
+	// Regex for replacing a wildcard written in the host of a URL
+	// (twitter.*): further host labels, or a path, may follow, e.g.:
+	// ^twitter([./].*)?$
+	RegexToReplaceHostWildcard string = "([./].*)?"
+
 	// Example of regex for a URL with both path parameters and wildcard:
 	// ^twitter\.com\/user/[^/]+/post/[^/]+/by(/.*)?$
 	// See unit tests for matching/non-matching URL examples:
@@ -164,9 +169,13 @@ func formatURLParts(urlParts []urltree.URLPart) (string, bool) {
 	hasWildcard := false
 	for index, urlPart := range urlParts {
 		isLastPart := index == len(urlParts)-1
-		if urlPart.Value == urltree.Wildcard && isLastPart && !urlPart.IsPartOfHost {
+		if urlPart.Value == urltree.Wildcard && isLastPart {
 			hasWildcard = true
-			formattedURL.WriteString(RegexToReplaceWildcard)
+			if urlPart.IsPartOfHost {
+				formattedURL.WriteString(RegexToReplaceHostWildcard)
+			} else {
+				formattedURL.WriteString(RegexToReplaceWildcard)
+			}
 			continue
 		}
 		if index > 0 {
